@@ -92,10 +92,11 @@ pub enum Outcome {
 }
 
 /// `ldpc-toolbox <args>` in-process on this thread under `plan`.
-pub fn run_cli_inproc(args: &[String], plan: &FsPlan) -> (Outcome, Arc<FsSim>) {
+pub fn run_cli_inproc(args: &[String], plan: &FsPlan, max_ops: u64) -> (Outcome, Arc<FsSim>) {
     use clap::Parser;
     use ldpc_toolbox::cli::{Args, Run};
     let fs = plan.install();
+    fs.limit_ops(max_ops);
     let mut argv = vec!["ldpc-toolbox".to_string()];
     argv.extend(args.iter().cloned());
     let r = dstsim::simfs::with(&fs, || {
@@ -157,13 +158,18 @@ pub fn eval_encode_sim(alist: &str, punct: &Option<String>, input: &[u8], seed: 
         args.extend(["--puncturing".to_string(), s.clone()]);
     }
     let what = format!("encode in-process (k = {}, n = {}, puncturing {:?}, {} input bytes)", k, m.c, punct, input.len());
+    // one-byte transfers, every one interrupted once, is the worst a plan does
+    let max_ops = 8 * (input.len() + want.len() + alist.len()) as u64 + 2000;
     let outpath = dir.join(OUT);
 
     let mut run = |plan: &FsPlan, stats: &mut Counters| -> Option<Violation> {
         let _ = std::fs::remove_file(&outpath);
-        let (o, fs) = run_cli_inproc(&args, plan);
+        let (o, fs) = run_cli_inproc(&args, plan, max_ops);
         let got = std::fs::read(&outpath).unwrap_or_default();
         stats.inc("encode runs under simfs");
+        if fs.overrun() {
+            return Some(Violation::new("encode-runaway", format!("{} under the file-fault plan {}: more than {} file operations for {} input bytes — the subcommand does not come to an end ({} bytes written so far, {} expected)", what, plan.to_json(), max_ops, input.len(), got.len(), want.len())));
+        }
         for (kname, n) in fs.fired() {
             stats.add(&format!("faults_fired/simfs: {}", kname), n);
         }
@@ -200,7 +206,10 @@ pub fn eval_encode_sim(alist: &str, punct: &Option<String>, input: &[u8], seed: 
 
     // 1. fault-free, recorded
     let _ = std::fs::remove_file(&outpath);
-    let (o0, fs0) = run_cli_inproc(&args, &FsPlan::default());
+    let (o0, fs0) = run_cli_inproc(&args, &FsPlan::default(), max_ops);
+    if fs0.overrun() {
+        return Some(Violation::new("encode-runaway", format!("{}: more than {} file operations for {} input bytes — the subcommand does not come to an end", what, max_ops, input.len())));
+    }
     if o0 != Outcome::Ok {
         return Some(Violation::new("encode-output", format!("{}: fault-free run ended with {:?}", what, o0)));
     }
